@@ -445,6 +445,8 @@ class JSON(Term):
             return self._get_list_sql(value, **kwargs)
         if isinstance(value, str):
             return self._get_str_sql(value, **kwargs)
+        if value is None or isinstance(value, bool):
+            return json.dumps(value)
         return str(value)
 
     def _get_dict_sql(self, value: dict, **kwargs: Any) -> str:
@@ -463,6 +465,9 @@ class JSON(Term):
 
     @staticmethod
     def _get_str_sql(value: str, quote_char: str = '"', **kwargs: Any) -> str:
+        if quote_char == '"':
+            # a JSON string: quotes, backslashes and control characters are JSON-escaped
+            return json.dumps(value, ensure_ascii=False)
         return format_quotes(value, quote_char)
 
     def get_sql(self, ctx: SqlContext) -> str:
